@@ -499,7 +499,9 @@ func execute(r *core.Run, c *Case) {
 		}
 		if tag != "" {
 			if tag == "panic" {
+				// the model predicts a bundle or an error for every Fetch: a panic is neither
 				r.Count("panicked", 1)
+				r.Violation(fmt.Sprintf("fetch-panicked:shape=%s:cache=%v:discard=%v", shapeClass(c.Shape), c.Cache, c.Discard), fmt.Sprintf("%s -- at op %d: %s", c.desc(), i, what), c)
 				return
 			}
 			r.Violation(fmt.Sprintf("%s:shape=%s:cache=%v:discard=%v", tag, shapeClass(c.Shape), c.Cache, c.Discard), fmt.Sprintf("%s -- at op %d: %s", c.desc(), i, what), c)
